@@ -202,8 +202,7 @@ class ExactCG:
         ift = ExactCG.ift
         A, b = energy._A, energy._b
         M = dense_matrix(ift, A)
-        x = M.LUsolve(sp.Matrix(flat(b)))
-        x = [sp.simplify(e) for e in x]
+        x = list(M.LUsolve(sp.Matrix(flat(b))))
         return energy.at(unflatten_like(ift, A.domain, x)), 0
 
 
